@@ -2,7 +2,7 @@
 # usage: rig2.sh <patch.diff> <check>...   -- applies a patch to a scratch copy of /repo and runs checks from a scratch copy of /verif
 # (leaves /repo and /verif untouched; used to try seeded changes while other runs read /repo)
 export GOFLAGS=-mod=mod GOPROXY=off
-R=/tmp/mutrepo2; V=/tmp/verifmut2
+R=/tmp/mutrepo${RIG:-2}; V=/tmp/verifmut${RIG:-2}
 rsync -a --delete --exclude .git /repo/ $R/
 rsync -a --delete --exclude .git --exclude .build --exclude replays --exclude evidence --exclude seeded --exclude mutation --exclude bin /verif/ $V/
 mkdir -p $V/evidence
